@@ -445,7 +445,7 @@ type c12prog struct {
 
 func c12run(r *report.Run) {
 	thorough := r.Tier == "thorough"
-	r.Rule("(a) all reachable slot-array states of the robin-hood table under Set/Assign/Delete over colliding keys, Copy from every state followed by all 1-2 operation continuations on either handle; (b) for every n up to a bound and 7 key patterns: insert n, delete/re-insert every single key, delete all in three orders; (c) struct programs for every field count F and method count M with three write orders and forced field-index strides; (d) host API on the same types; (f) all sequences of <=3 (thorough: 4) statements over 16 field statements (constants, ++, +=, a field computed from another field of the same or the other instance, swaps, byte wrap-around, stores through t.p) placed in locals, in a method and in package-level variables, against the same statements run natively on a Go struct; non-trivial = history with >=3 operations, family with n>12, struct program with F>=2")
+	r.Rule("(a) all reachable slot-array states of the robin-hood table under Set/Assign/Delete over colliding keys, Copy from every state followed by all 1-2 operation continuations on either handle; (b) for every n up to a bound and 7 key patterns: insert n, delete/re-insert every single key, delete all in three orders; (c) struct programs for every field count F and method count M with three write orders and forced field-index strides; (d) host API on the same types; (f) all sequences of <=3 (thorough: 4) statements over 18 field statements (constants, ++, +=, a field computed from another field of the same or the other instance, swaps, byte wrap-around, stores through t.p) placed in locals, in a method and in package-level variables, against the same statements run natively on a Go struct; non-trivial = history with >=3 operations, family with n>12, struct program with F>=2")
 	r.Assume("Go map per handle is the reference for the table; expected struct output is known by construction and the quick slice is also run by the Go toolchain", "key patterns and strides are fixed families, enumerated completely")
 	keys := []int{0, 16, 32, 1, 15}
 	maxN, maxF := 64, 64
@@ -604,6 +604,8 @@ var c12fstmts = []c12fstmt{
 	{"t.p.f++", func(t, u *c12S) { t.p.f++ }},
 	{"t.g = t.p.f - 2", func(t, u *c12S) { t.g = t.p.f - 2 }},
 	{"u.h = t.h + 1", func(t, u *c12S) { u.h = t.h + 1 }},
+	{"t.p.g, u.g = 5, 6", func(t, u *c12S) { t.p.g, u.g = 5, 6 }},
+	{"u.f, t.p.f = t.f, t.g", func(t, u *c12S) { u.f, t.p.f = t.f, t.g }},
 }
 
 var c12tuRe = regexp.MustCompile(`\b(t|u)\b`)
